@@ -1,7 +1,7 @@
 (* C02 — property theorems.  Nothing but statements, `exact`, Print Assumptions.
    Go's Response.Write / Header.Write / chunked writer are MODELLED (RespFraming.v);
    the reference client (Client.v, RFC 7230 3.3.3) is part of the specification. *)
-From G02 Require Import RespFraming Client Check FlushProofs CodecProofs WriterProofs ResponseProofs HeaderProofs HandlerProofs Obligations.
+From G02 Require Import RespFraming Client Relay Check FlushProofs RelayProofs CodecProofs WriterProofs ResponseProofs HeaderProofs HandlerProofs Obligations.
 Open Scope N_scope.
 
 (* The codec law: whatever follows on the connection, the reference client consumes exactly
@@ -34,6 +34,15 @@ Theorem T02_kth_answers_kth : forall v11 xs,
   Some (map x_obs (served xs), []).
 Proof. exact (kth_answers_kth ob_header_only_is_rfc ob_header_only_writer_shape ob_connect_literal ob_frames_unknown_length ob_write_error_closes). Qed.
 Print Assumptions T02_kth_answers_kth.
+
+(* The status the client gets is the origin's: code, version and reason text (the observable
+   of T02_roundtrip), for every response, request and connection state. *)
+Theorem T02_status_intact : forall closing q r order,
+  is_connect_ok q r = false ->
+  let o := observable closing q r order in
+  o_code o = r_code r /\ o_major o = r_major r /\ o_minor o = r_minor r /\ o_reason o = reason_text r.
+Proof. exact status_intact. Qed.
+Print Assumptions T02_status_intact.
 
 (* The body the client gets is the origin's body, byte for byte. *)
 Theorem T02_body_intact : forall closing q r, o_body (go_obs (q_method q) (prepare closing q r)) = body_bytes r.
@@ -133,6 +142,78 @@ Theorem T02_chunk_delivered : forall ws1 d ws2,
 Proof. exact (fun ws1 d ws2 => conj (chunk_delivered ob_flush_checks_contains chunk_flush_patterns ob_chunk_has_crlf ws1 d ws2)
                                      (chunk_delivered ob_flush_checks_contains sse_flush_patterns ob_sse_has_crlf ws1 d ws2)). Qed.
 Print Assumptions T02_chunk_delivered.
+
+(* ---- Incremental delivery as a transition system (Relay.v): origin bytes arrive, the copy
+   loop reads any non-empty prefix of what is unread, each read is one write (or the three
+   writes of a chunk) on the pattern writer, which writes to the connection's bufio.Writer
+   (MODELLED, any capacity) and flushes it on a pattern.  All statements hold for EVERY
+   schedule of arrivals and reads, every buffer capacity and every head. *)
+
+(* Nothing is lost, invented, duplicated or reordered: connection ++ buffer = head ++ encoded
+   reads, and reads ++ unread = what arrived. *)
+Theorem T02_relay_conservative : forall cap pats chunked head evs,
+  let s := relay_run cap pats chunked (relay_init cap pats head) evs in
+  delivered s ++ bw_buf (rs_bw s) = concat head ++ encoded chunked (rs_reads s) /\
+  concat (rs_reads s) ++ rs_avail s = arrived_of evs /\
+  Forall (fun d => d <> []) (rs_reads s).
+Proof. exact relay_conservative. Qed.
+Print Assumptions T02_relay_conservative.
+
+(* Event stream without chunked coding to the client: whatever two ends of line form the empty
+   line after an event, once its last byte has been read the whole event is ON THE CLIENT
+   CONNECTION (not merely "a flush was requested") ... *)
+Theorem T02_event_reaches_connection : forall cap h x evs, x <> [] ->
+  let s := relay_run cap sse_flush_patterns false (relay_init cap sse_flush_patterns (h ++ [x])) evs in
+  forall e1 e2 a c, In e1 eols -> In e2 eols -> concat (rs_reads s) = a ++ (e1 ++ e2) ++ c ->
+    exists rest, delivered s = concat (h ++ [x]) ++ a ++ (e1 ++ e2) ++ rest.
+Proof. exact (event_reaches_connection ob_flush_checks_straddle ob_flush_checks_contains sse_flush_patterns
+               ob_sse_has_lflf ob_sse_has_crcr ob_sse_has_lfcr ob_sse_has_crlf ob_sse_patterns_nonzero). Qed.
+Print Assumptions T02_event_reaches_connection.
+
+(* ... hence, in terms of what the origin has SENT: whenever the proxy is waiting for more data
+   (nothing unread), every complete event that has arrived is on the client connection — it
+   never waits for later body bytes. *)
+Theorem T02_sent_event_delivered : forall cap h x evs, x <> [] ->
+  let s := relay_run cap sse_flush_patterns false (relay_init cap sse_flush_patterns (h ++ [x])) evs in
+  rs_avail s = [] ->
+  forall e1 e2 a c, In e1 eols -> In e2 eols -> arrived_of evs = a ++ (e1 ++ e2) ++ c ->
+    exists rest, delivered s = concat (h ++ [x]) ++ a ++ (e1 ++ e2) ++ rest.
+Proof. exact (sent_event_delivered ob_flush_checks_straddle ob_flush_checks_contains sse_flush_patterns
+               ob_sse_has_lflf ob_sse_has_crcr ob_sse_has_lfcr ob_sse_has_crlf ob_sse_patterns_nonzero). Qed.
+Print Assumptions T02_sent_event_delivered.
+
+(* Chunked coding to the client (chunk writer and event-stream writer): after every read the
+   buffer is empty — everything read so far is on the client connection as complete chunks. *)
+Theorem T02_chunk_reaches_connection : forall cap head evs,
+  (let s := relay_run cap chunk_flush_patterns true (relay_init cap chunk_flush_patterns head) evs in
+   rs_reads s <> [] ->
+   bw_buf (rs_bw s) = [] /\ delivered s = concat head ++ concat (flat_map chunk_writes (rs_reads s))) /\
+  (let s := relay_run cap sse_flush_patterns true (relay_init cap sse_flush_patterns head) evs in
+   rs_reads s <> [] ->
+   bw_buf (rs_bw s) = [] /\ delivered s = concat head ++ concat (flat_map chunk_writes (rs_reads s))).
+Proof. exact (fun cap head evs =>
+  conj (chunk_reaches_connection ob_flush_checks_contains cap chunk_flush_patterns head evs ob_chunk_has_crlf)
+       (chunk_reaches_connection ob_flush_checks_contains cap sse_flush_patterns head evs ob_sse_has_crlf)). Qed.
+Print Assumptions T02_chunk_reaches_connection.
+
+(* After the writes that follow the body and the final Flush of writeResponse everything is on
+   the connection and the buffer is empty. *)
+Theorem T02_relay_complete : forall cap pats chunked head evs tail,
+  let s := relay_finish cap pats (relay_run cap pats chunked (relay_init cap pats head) evs) tail in
+  bw_buf (rs_bw s) = [] /\
+  delivered s = concat head ++ encoded chunked (rs_reads s) ++ concat tail.
+Proof. exact relay_complete. Qed.
+Print Assumptions T02_relay_complete.
+
+(* Non-vacuity: a 4-byte buffer, an event arriving in three pieces and read in other pieces,
+   then the start of a second event: the first is on the connection, the second still buffered. *)
+Example T02_relay_example :
+  let s := relay_run 4 sse_flush_patterns false (relay_init 4 sse_flush_patterns [b "HTTP/1.1 200 OK" ++ crlf; crlf]) example_evs in
+  rs_avail s = [] /\ rs_reads s = [b "d"; b "ata: 1" ++ [10]; [10]; b "da"] /\
+  delivered s = b "HTTP/1.1 200 OK" ++ crlf ++ crlf ++ b "data: 1" ++ [10; 10] /\
+  bw_buf (rs_bw s) = b "da".
+Proof. exact relay_example. Qed.
+Print Assumptions T02_relay_example.
 
 (* http.Handler variant of the proxy: every non-empty read of a body of unknown length is
    followed by a flush. *)
